@@ -1,6 +1,7 @@
 package main
 
 import (
+	"reflect"
 	"fmt"
 	"io/ioutil"
 	"os"
@@ -165,6 +166,41 @@ func runC03(ctx *Ctx, c c03Case) {
 	}
 }
 
+// the audit files are files too: after kill, cleanup and re-run every output's record (process, command, parameters,
+// tags, outputs and the whole upstream tree; IDs and times aside) equals that of the uninterrupted run
+func auditAfterRestart(ctx *Ctx, point string, n int) {
+	ch := Chain{Inputs: []string{"a.txt", "b.txt"}, Levels: []Level{{}, {}, {}}, Max: 2}
+	ref := newDir()
+	defer os.RemoveAll(ref)
+	dir := newDir()
+	defer os.RemoveAll(dir)
+	for p, content := range ch.sources() {
+		ioutil.WriteFile(filepath.Join(ref, p), []byte(content), 0644)
+		ioutil.WriteFile(filepath.Join(dir, p), []byte(content), 0644)
+	}
+	if r := RunWorkflow(ch.desc(), RunOpts{Dir: ref}); r.Exit != 0 {
+		ctx.Res.Disagree(Violation{What: "reference run failed: " + firstLine(r.Stderr), Witness: point})
+		return
+	}
+	want := auditsOf(ref, ch)
+	r1 := RunWorkflow(ch.desc(), RunOpts{Dir: dir, Env: []string{fmt.Sprintf("VERIF_CRASH_AT=%s#%d", point, n)}})
+	removeLeftovers(dir)
+	r2 := RunWorkflow(ch.desc(), RunOpts{Dir: dir})
+	ctx.Res.Eval(fmt.Sprintf("audit records after kill at %s#%d, cleanup, re-run", point, n), r1.Exit == -1, point)
+	ctx.Res.Count("audit-after-restart")
+	if r2.Exit != 0 {
+		ctx.Res.Violate(Violation{What: fmt.Sprintf("re-run after cleanup exited %d: %s", r2.Exit, tail(r2.Stderr)), Class: "c03.rerun-failed", Witness: point})
+		return
+	}
+	got := auditsOf(dir, ch)
+	for o, w := range want {
+		if !reflect.DeepEqual(got[o], w) {
+			ctx.Res.Violate(Violation{What: fmt.Sprintf("after a kill at %s#%d, cleanup and re-run the audit file of %s differs from the uninterrupted run's: %v vs %v", point, n, o, got[o], w), Class: "c03.audit-differs", Witness: point})
+			return
+		}
+	}
+}
+
 // leftovers of a streaming workflow: a FIFO without a temp dir (the run was killed right after the FIFO was
 // created) must make the next run stop, like a leftover temp dir does
 func leftoverFifo(ctx *Ctx) {
@@ -237,6 +273,8 @@ func checkC03(ctx *Ctx) {
 		}
 	})
 	leftoverFifo(ctx)
+	auditAfterRestart(ctx, "fin.renamed", 3)
+	auditAfterRestart(ctx, "in.cmd.after", 4)
 	ctx.Res.Extra["model_window_witness"] = ctx.Drv.Ask("task.history", "0,0", "w:0:1,w:1:2", "ok", "", "12:1")
 }
 
